@@ -39,7 +39,7 @@ func c01Init() {
 
 func c01Params() []any {
 	return []any{nil, "", "1", "-1", "a,b", "1:2", ":", "-3:-1", "%d", "%s %v %!", 0, 1, -1, 3, 1000000, math.MaxInt64, math.MinInt64, 1.5, math.NaN(), math.Inf(1), true,
-		[]int{1, 2}, map[string]int{"a": 1}, ZInner{Title: "t"}, "2006-01-02", "a", "a,b,c,d", "é", "\xff", []any{nil}, uint8(200), float32(0.25), "0", "99999999999999999999", "1e400"}
+		[]int{1, 2}, map[string]int{"a": 1}, ZInner{Title: "t"}, "2006-01-02", "a", "a,b,c,d", "é", "\xff", []any{nil}, uint8(200), float32(0.25), "0", "99999999999999999999", "1e400", 7, 70, 100, 130, 170, 240}
 }
 
 // c01Exec runs a compiled template through one of the four entry points.
@@ -210,6 +210,8 @@ var c01Inner = []string{
 	"{% spaceless %}<a> <b> {{ z_str }}</b>{% endspaceless %}{% autoescape off %}{{ z_str }}{% endautoescape %}",
 	"{% ifequal z_int 42 %}e{% else %}n{% endifequal %}{% ifnotequal z_str z_int %}n{% endifnotequal %}{% if z_int in z_ints and not z_nil %}i{% elif z_true %}e{% endif %}",
 	"{{ forloop.Counter }}{{ forloop.Parentloop.Last }}{{ block.Super }}{{ pongo2.version }}",
+	"{% if z_true %}\n  {%- if z_true %}b{% endif %}\n{% endif %}\n{{- z_str -}}\n  {%- for i in z_ints -%}\n{{ i }}\n{%- endfor %}\n \t{% if z_nil -%}\n{% endif -%}\n",
+	"{%- if z_true -%}\n{%- endif -%}{{- z_nil -}} \t\n{%- with a=1 %}\n\n{% endwith -%}\n{# c #}\n{%- comment %}x{% endcomment %}\n  {% templatetag openblock -%}\n",
 }
 
 type c01Wrapper struct {
@@ -298,6 +300,7 @@ func c01Combo(c *C, i int) {
 	ctx["incname"], ctx["wincname"], ctx["nosuch"] = "/inc.tpl", "/winc.tpl", "/nosuch.tpl"
 	ctx["z_mixedkeys"] = map[any]int{1: 1, "a": 2, uint8(3): 3, 2.5: 4, true: 5, nil: 6}
 	set, _ := newSet(files)
+	set.Options.TrimBlocks, set.Options.LStripBlocks = i&1 == 1, i&2 == 2 // all four option settings over the combinations
 	for which := 0; which < 4; which++ {
 		c01One(c, set, main, "/main.tpl", []pongo2.Context{ctx, nil}, which)
 		if c.Failed() {
